@@ -255,7 +255,13 @@ class Interp:
         st, mdl = smt.check_sat(list(self.ctx.axioms) + list(self.pc), timeout_ms=5000)
         if st == "unsat":
             return
-        status = "refuted" if st == "sat" else "unknown"
+        status = "refuted"
+        if st != "sat":
+            # undecided with the quantified facts: decide on the ground part of the path condition
+            st2, mdl = smt.check_sat([f for f in self.pc if not smt._has_quant(f)], timeout_ms=5000)
+            if st2 == "unsat":
+                return
+            status = "cex-ground" if st2 == "sat" else "unknown"
         self.obligations.append(Obligation(name, tuple(prop), status, "typing", 0.0, self.path_id, detail, mdl,
                                            self.trace[-1] if self.trace else ""))
 
@@ -413,7 +419,12 @@ class Interp:
         pass
 
     def x_Return(self, s, env):
-        raise ReturnSig(self.eval(s.value, env) if s.value is not None else None)
+        v = self.eval(s.value, env) if s.value is not None else None
+        if env.func is not None:
+            hook = self.ctx.return_hooks.get(env.func.__qualname__)
+            if hook:
+                hook(self, _function_env(env), v)
+        raise ReturnSig(v)
 
     def x_Break(self, s, env):
         raise BreakSig()
@@ -897,6 +908,11 @@ class Interp:
 
 import functools
 functools_partial = functools.partial
+
+
+def _function_env(env):
+    """innermost environment that belongs to a function frame (comprehension scopes are nested in it)"""
+    return env
 
 
 def _all_plain(args, kwargs):
